@@ -84,6 +84,12 @@ func fieldsOf(tab []fspec, flavour string) []*dg.Field {
 			if s.def != nil {
 				f.A.Default, f.A.HasDef = s.def, true
 			}
+		case "reqdfl": // required AND defaulted
+			if s.def == nil {
+				continue
+			}
+			f.Required = true
+			f.A.Default, f.A.HasDef = s.def, true
 		}
 		fs = append(fs, f)
 	}
@@ -150,6 +156,26 @@ func coveringDesigns(prop string) []*dg.Design {
 			p := dg.A(dg.Obj(fs...))
 			s.Methods = append(s.Methods, method("q_"+fl, "GET", "/query/"+fl, &p, &dg.HTTPMap{Params: entries(fs, "")}))
 		}
+		// required AND defaulted query parameters, and a path parameter next to them
+		{
+			pick := map[string]bool{"s_enum": true, "s_min": true, "i_min": true, "i_rng": true, "f_max": true, "flag": true, "u_min": true}
+			var tab []fspec
+			for _, sp := range primTable(false) {
+				if pick[sp.name] {
+					tab = append(tab, sp)
+				}
+			}
+			fs := fieldsOf(tab, "reqdfl")
+			fs = append(fs, dg.Req("pid", dg.Prim("Int")).With(dg.Validation{Min: fp(1)}), dg.F("o_plain", dg.Prim("String")), dg.Req("r_plain", dg.Prim("Int")))
+			p := dg.A(dg.Obj(fs...))
+			var es []dg.MapEntry
+			for _, f := range fs {
+				if f.Name != "pid" {
+					es = append(es, dg.MapEntry{Attr: f.Name})
+				}
+			}
+			s.Methods = append(s.Methods, method("q_reqdfl", "GET", "/query/reqdfl/{pid}", &p, &dg.HTTPMap{Params: es}))
+		}
 		d.Services = []*dg.Service{s}
 		out = append(out, d)
 	}
@@ -172,6 +198,22 @@ func coveringDesigns(prop string) []*dg.Design {
 			fs = append(fs, ha)
 			p := dg.A(dg.Obj(fs...))
 			s.Methods = append(s.Methods, method("h_"+fl, "GET", "/hdr/"+fl, &p, &dg.HTTPMap{Headers: entries(fs, "X-")}))
+		}
+		{
+			fs := fieldsOf(tab, "reqdfl")
+			p := dg.A(dg.Obj(fs...))
+			s.Methods = append(s.Methods, method("h_reqdfl", "GET", "/hdr/reqdfl", &p, &dg.HTTPMap{Headers: entries(fs, "X-")}))
+			// a required cookie is read last: it discards earlier errors (recorded finding), so one per method
+			cf := []*dg.Field{
+				dg.F("ck_opt", dg.Prim("String")).With(dg.Validation{Enum: []any{"x1", "y2"}}),
+				dg.F("ck_dfl", dg.Prim("String")).Def("dflt"),
+				dg.Req("ck_req", dg.Prim("String")).With(dg.Validation{MinLen: ip(2)}),
+			}
+			cp := dg.A(dg.Obj(cf...))
+			s.Methods = append(s.Methods, method("ck", "GET", "/hdr/ck", &cp, &dg.HTTPMap{Cookies: []dg.MapEntry{{Attr: "ck_opt", Wire: "ck_opt_c"}, {Attr: "ck_dfl", Wire: "ck_dfl_c"}, {Attr: "ck_req", Wire: "ck_req_c"}}}))
+			cf2 := []*dg.Field{dg.F("ck_o2", dg.Prim("String")), dg.Req("ck_reqdfl", dg.Prim("String")).Def("dd")}
+			cp2 := dg.A(dg.Obj(cf2...))
+			s.Methods = append(s.Methods, method("ck2", "GET", "/hdr/ck2", &cp2, &dg.HTTPMap{Cookies: []dg.MapEntry{{Attr: "ck_o2", Wire: "ck_o2_c"}, {Attr: "ck_reqdfl", Wire: "ck_reqdfl_c"}}}))
 		}
 		pf := []*dg.Field{
 			dg.Req("p_s", dg.Prim("String")).With(dg.Validation{Pattern: "^[a-z]+$", MaxLen: ip(5)}),
@@ -255,6 +297,31 @@ func coveringDesigns(prop string) []*dg.Design {
 		recP := dg.A(dg.Ref("Rec"))
 		s.Methods = append(s.Methods, method("m_rec", "POST", "/nested/rec", &recP, nil))
 		d.Services = []*dg.Service{s}
+		out = append(out, d)
+	}
+
+	// D3b: two SERVICES with same-named methods whose payloads and results differ
+	{
+		d := &dg.Design{Name: "cov_twosvc", Features: []string{"covering", "same_method_names"}}
+		ordersCreate := dg.A(dg.Obj(
+			dg.Req("sku", dg.Prim("String")).With(dg.Validation{Pattern: "^[a-z]+$"}),
+			dg.F("qty", dg.Prim("Int")).With(dg.Validation{Min: fp(1)})))
+		ordersRes := dg.A(dg.Obj(dg.Req("id", dg.Prim("String")).With(dg.Validation{MinLen: ip(2)})))
+		invCreate := dg.A(dg.Obj(
+			dg.Req("number", dg.Prim("Int")).With(dg.Validation{Min: fp(1000)}),
+			dg.F("memo", dg.Prim("String")).With(dg.Validation{MaxLen: ip(5)}),
+			dg.F("lines", dg.ArrayOf(dg.Attr{T: dg.Prim("String"), V: &dg.Validation{MinLen: ip(1)}}))))
+		invRes := dg.A(dg.Obj(dg.Req("total", dg.Prim("Float64")).With(dg.Validation{Min: fp(0)}), dg.F("paid", dg.Prim("Boolean"))))
+		ordersGet := dg.A(dg.Obj(dg.Req("oid", dg.Prim("Int")).With(dg.Validation{Min: fp(1)}), dg.F("verbose", dg.Prim("Boolean"))))
+		invGet := dg.A(dg.Obj(dg.Req("iid", dg.Prim("String")).With(dg.Validation{Format: "uuid"}), dg.Req("cur", dg.Prim("String")).With(dg.Validation{Enum: []any{"eur", "usd"}})))
+		d.Services = []*dg.Service{
+			{Name: "orders", Methods: []*dg.Method{
+				{Name: "create", Payload: &ordersCreate, Result: &ordersRes, HTTP: &dg.HTTPMap{Routes: []dg.Route{{Verb: "POST", Path: "/orders"}}}},
+				{Name: "get", Payload: &ordersGet, Result: &ordersRes, HTTP: &dg.HTTPMap{Routes: []dg.Route{{Verb: "GET", Path: "/orders/{oid}"}}, Params: []dg.MapEntry{{Attr: "verbose"}}}}}},
+			{Name: "invoices", Methods: []*dg.Method{
+				{Name: "create", Payload: &invCreate, Result: &invRes, HTTP: &dg.HTTPMap{Routes: []dg.Route{{Verb: "POST", Path: "/invoices"}}}},
+				{Name: "get", Payload: &invGet, Result: &invRes, HTTP: &dg.HTTPMap{Routes: []dg.Route{{Verb: "GET", Path: "/invoices/{iid}"}}, Params: []dg.MapEntry{{Attr: "cur"}}}}}},
+		}
 		out = append(out, d)
 	}
 
